@@ -1,12 +1,14 @@
 """C16 — version tokens: one writer at a time, nothing reclaimed while still visible.
 
-Tokens.tla is the contract (live tokens, min threshold, counters, manager lifetime);
+Tokens.tla is the contract (live tokens - held, lent to a with_*_token closure or parked in a cache -,
+min threshold, counters, manager lifetime, level predicates, lazy free lists);
 VersionManagerMech.tla models the code segment by segment (pinned protocol: TLC finds the
 two-writer and the min-overtakes-reader interleavings; repaired protocol: holds);
 TLC-generated schedules are executed by real threads on the real VersionManager under the
 cooperative scheduler (hooks H2); sequential TokenManager/TokenCache histories and a
 free-running stress run are recorded too; Trace_Tokens.tla judges every recorded run.
 """
+import concurrent.futures as cf
 import glob
 import json
 import os
@@ -16,6 +18,7 @@ import vlib
 LEVEL = "model_checking"
 BIN = "c16"
 TRACE = "Trace_Tokens"
+LEVELS = ["NoWriteReadOnly", "SingleThreadStrict", "SingleThreadShared", "OneWriteMultiRead", "MultiWriteMultiRead"]
 
 
 def corrupt_min(run):
@@ -30,21 +33,34 @@ def corrupt_min(run):
     return None
 
 
-def corrupt_second_writer(run):
-    """turn a refused writer acquisition into a granted one while a writer is live"""
+GOOD_TK = {"valid": True, "tmin": 1, "lvl": "OneWriteMultiRead", "ro": False}
+
+
+def _second_writer(run, scoped):
     if not any(e.get("level") == "OneWriteMultiRead" for e in run if e.get("op") == "mgr_new"):
         return None
     w_live = False
     for e in run:
-        if e.get("op") == "acq" and e.get("kind") == "W":
-            if e.get("ok"):
+        if e.get("op") in ("acq", "acq_cached") and e.get("kind") == "W":
+            if e.get("op") == "acq_cached" or e.get("ok"):
                 w_live = True
-            elif w_live:
-                e.update({"ok": True, "id": 999999, "ver": 999, "tracked": True})
+            elif w_live and bool(e.get("scoped")) == scoped:
+                e.update({"ok": True, "id": 999999, "ver": 999, "tracked": True, "tk": dict(GOOD_TK)})
                 return run
         if e.get("op") == "rel_start":
             w_live = False
     return None
+
+
+def corrupt_second_writer(run):
+    """turn a refused writer acquisition into a granted one while a writer is live"""
+    return _second_writer(run, False)
+
+
+def corrupt_second_scoped_writer(run):
+    """a with_writer_token whose acquisition was refused (a writer is live, possibly parked in a
+    cache) becomes a closure that ran with a second writer token"""
+    return _second_writer(run, True)
 
 
 def corrupt_counts(run):
@@ -55,47 +71,182 @@ def corrupt_counts(run):
     return None
 
 
+def corrupt_counts_in_closure(run):
+    """the observation made inside a with_*_token closure does not count the closure's token"""
+    inside = None
+    for e in run:
+        if e.get("op") in ("acq", "acq_cached") and e.get("scoped") and e.get("tracked") and e.get("ok", True):
+            inside = e
+        elif inside is not None and e.get("op") == "obs" and e.get("quiet"):
+            k = "ar" if inside["kind"] == "R" else "aw"
+            if e[k] > 0:
+                e[k] -= 1
+                return run
+            inside = None
+        elif e.get("op") in ("rel_start", "cache_put"):
+            inside = None
+    return None
+
+
+def corrupt_validate(run):
+    for e in run:
+        if e.get("op") == "validate" and e.get("res"):
+            e["res"] = False
+            return run
+    return None
+
+
+def corrupt_cache_get(run):
+    for e in run:
+        if e.get("op") == "cache_get" and e.get("hit"):
+            e["ver"] += 1
+            return run
+    return None
+
+
+def corrupt_cached_version(run):
+    for e in run:
+        if e.get("op") == "acq_cached" and e.get("tracked"):
+            e["ver"] += 1
+            return run
+    return None
+
+
+def corrupt_reclaim(run):
+    """an item is handed to the free callback although its age is not below the threshold"""
+    for e in run:
+        if e.get("op") == "reclaim" and e.get("items"):
+            e["min"] = e["items"][-1][1]
+            e["pcan"] = [a < e["min"] for a in e["page"]]
+            return run
+    return None
+
+
+def corrupt_reclaim_foreign_item(run):
+    """the free callback receives an item that was never retired (or receives one twice)"""
+    for e in run:
+        if e.get("op") == "reclaim" and e.get("items"):
+            e["items"].append(list(e["items"][0]))
+            e["ret"] += 1
+            return run
+    return None
+
+
+def corrupt_level_facts(run):
+    for e in run:
+        if e.get("op") == "mgr_new" and e.get("level") == "OneWriteMultiRead":
+            e["facts"]["acw"] = True
+            return run
+    return None
+
+
+def corrupt_token_valid(run):
+    for e in run:
+        if e.get("op") == "acq" and e.get("ok") and e.get("scoped"):
+            e["tk"]["valid"] = False
+            return run
+    return None
+
+
+def corrupt_use(run):
+    for e in run:
+        if e.get("op") == "use":
+            e["id"] = 999999
+            return run
+    return None
+
+
+def _selftest_any(ctx, files, mutate, what, limit=60):
+    for f in files[:limit]:
+        try:
+            ctx.selftest_corrupt(TRACE, f, mutate, what)
+            return
+        except vlib.ToolError as e:
+            if "no run suitable" in str(e):
+                continue
+            raise
+    raise vlib.ToolError("binding self-test: no run suitable for corruption (%s)" % what)
+
+
 def run(ctx):
     ctx.build(BIN)
     th = ctx.thorough
+    pool = cf.ThreadPoolExecutor(max_workers=4)
     # ---- mechanism model: the pinned protocol violates the contract, the repaired one satisfies it
-    ctx.tlc_mc("MC_VMMech", cfg="MC_VMMech_pinned_writers.cfg", expect="OneWriter", workers=4,
-               note="protocol of the pinned tree: two writer tokens (defect repaired by fix 7bc1afe)")
-    ctx.tlc_mc("MC_VMMech", cfg="MC_VMMech_pinned_min.cfg", expect="MinNotAboveLive", workers=4,
-               note="protocol of the pinned tree: min_version overtakes a live reader (repaired by 7bc1afe)")
+    # (program sets 10.. include the per-thread token cache of fsa/token.rs and the closure-scoped
+    # entry points with_reader_token / with_writer_token)
+    mc = [("MC_VMMech_pinned_writers.cfg", "OneWriter", "protocol of the pinned tree: two writer tokens (defect repaired by fix 7bc1afe)"),
+          ("MC_VMMech_pinned_min.cfg", "MinNotAboveLive", "protocol of the pinned tree: min_version overtakes a live reader (repaired by 7bc1afe)")]
     for p in ([1, 2, 3, 4, 5, 6, 7, 8, 9] if th else [1, 2, 3, 4, 5, 6, 7, 8]):
-        ctx.tlc_mc("MC_VMMech", cfg="MC_VMMech_fixed_%d.cfg" % p, workers=4,
-                   note="repaired protocol, program set %d, all interleavings" % p)
-    ctx.tlc_mc("MC_VMMech", cfg="MC_VMMech_fixedmulti_4.cfg", workers=4, note="MultiWriteMultiRead")
+        mc.append(("MC_VMMech_fixed_%d.cfg" % p, "ok", "repaired protocol, program set %d, all interleavings" % p))
+    for p in ([10, 11, 12, 13, 14, 15] if th else [10, 11, 12, 13, 14]):
+        mc.append(("MC_VMMech_fixed_%d.cfg" % p, "ok", "repaired protocol + per-thread token cache / with_*_token, program set %d, all interleavings" % p))
+    mc.append(("MC_VMMech_fixedmulti_4.cfg", "ok", "MultiWriteMultiRead"))
+    mc.append(("MC_VMMech_fixedmulti_11.cfg", "ok", "MultiWriteMultiRead, token cache"))
     if th:
-        ctx.tlc_mc("MC_VMMech", cfg="MC_VMMech_fixedmulti_9.cfg", workers=4, note="MultiWriteMultiRead, 3 threads")
+        mc.append(("MC_VMMech_fixedmulti_9.cfg", "ok", "MultiWriteMultiRead, 3 threads"))
+        mc.append(("MC_VMMech_fixedmulti_12.cfg", "ok", "MultiWriteMultiRead, token cache, both slots"))
+    futs = [pool.submit(ctx.tlc_mc, "MC_VMMech", cfg=c, expect=x, workers=2, note=n) for c, x, n in mc]
+    for f in futs:
+        f.result()
     # ---- B3: schedules generated by TLC from the repaired-protocol model, executed on real threads
     files = []
     sched_total = 0
-    drift = 0
-    gens = [("fixed_1", 10**9), ("fixed_2", 10**9), ("fixed_3", 10**9), ("fixed_4", 10**9 if th else 1200),
-            ("fixed_6", 10**9 if th else 600), ("fixedmulti_4", 10**9 if th else 600)]
+    big = 10**9
+    gens = [("fixed_1", big), ("fixed_2", big), ("fixed_3", big), ("fixed_4", big if th else 900),
+            ("fixed_6", big if th else 400), ("fixedmulti_4", big if th else 400),
+            ("fixed_10", big), ("fixed_11", big if th else 400), ("fixed_12", 6000 if th else 400),
+            ("fixed_13", big if th else 400), ("fixed_14", big if th else 400), ("fixedmulti_11", 5000 if th else 300)]
     if th:
-        gens += [("fixed_5", 10**9), ("fixed_7", 10**9), ("fixed_8", 10**9)]
-    for name, limit in gens:
+        gens += [("fixed_5", big), ("fixed_7", big), ("fixed_8", big), ("fixed_15", big), ("fixedmulti_12", 3000)]
+
+    def gen_and_run(name, limit):
         out = os.path.join(ctx.work, "sched_%s.ndjson" % name)
-        f, n = ctx.tlc_generate("MC_VMMech", cfg="MC_VMMechGen_%s.cfg" % name, outfile=out, workers=4, timeout=1200, jvm="-Xmx6g")
+        f, n = ctx.tlc_generate("MC_VMMech", cfg="MC_VMMechGen_%s.cfg" % name, outfile=out, workers=2, timeout=1200, jvm="-Xmx6g")
         if n == 0:
             raise vlib.ToolError("no schedules generated for " + name)
         s = ctx.harness(BIN, "sched", "sched_" + name, extra={"in": f, "limit": limit})
+        return name, n, s
+
+    drift = 0
+    for name, n, s in pool.map(lambda a: gen_and_run(*a), gens):
         if s.get("stuck", 0):
             ctx.add_violation("a scheduled run on the real VersionManager never reached its next schedule point (deadlock under schedule)",
                               {"kind": "stuck_schedule", "summary": {k: v for k, v in s.items() if not k.startswith("_")}}, subject="vm:sched")
         sched_total += s.get("schedules", 0)
-        files += sorted(glob.glob(os.path.join(s["_out"], "*.ndjson")))
+        fs = sorted(glob.glob(os.path.join(s["_out"], "*.ndjson")))
+        files += fs
+        # step structure: the real run takes one extra step per thread (thread start); anything else
+        # means the mechanism model and the code are segmented differently (reported, not a verdict)
+        for f in fs:
+            for e in vlib.read_ndjson(f):
+                if e.get("op") == "reset" and e["real_steps"] - e["model_steps"] != len(e["prog"]):
+                    drift += 1
         ctx.cov.setdefault("schedule_sets", []).append({"program_set": name, "generated_by_TLC": n, "executed_on_real_threads": s.get("schedules", 0),
                                                           "exhaustive": s.get("schedules", 0) == n, "real_steps": s.get("steps", 0)})
-    # ---- seeded random schedules of random programs (incl. reclaim ops), sequential cache histories, stress
+    pool.shutdown()
+    ctx.cov["states"] = sum(m.get("distinct_states", 0) for m in ctx.cov["models"])
+    ctx.cov["transitions"] = sum(m.get("states_generated", 0) for m in ctx.cov["models"])
+    # ---- seeded random schedules of random programs over every level (token cache, closures, validate,
+    # lazy free list), sequential histories (several managers / front-ends / caches), stress
     s_r = ctx.harness(BIN, "rsched", "rsched")
     s_q = ctx.harness(BIN, "seq", "seq")
     s_s = ctx.harness(BIN, "stress", "stress")
     for s in (s_r, s_q, s_s):
         files += sorted(glob.glob(os.path.join(s["_out"], "*.ndjson")))
+    if s_r.get("stuck", 0):
+        ctx.add_violation("a randomly scheduled run never reached its next schedule point (deadlock under schedule)",
+                          {"kind": "stuck_schedule", "summary": {k: v for k, v in s_r.items() if not k.startswith("_")}}, subject="vm:rsched")
+    # every ConcurrencyLevel must have been a subject of the scheduler mode and of the sequential mode
+    for lv in LEVELS:
+        if not s_r.get("per_level", {}).get(lv):
+            raise vlib.ToolError("vacuity: level %s never scheduled" % lv)
+        if not s_q.get("stats", {}).get("level:" + lv):
+            raise vlib.ToolError("vacuity: level %s never in a sequential history" % lv)
+    for k in ("scoped_ok", "scoped_err", "scoped_displaces", "acq_cached", "uc_put", "uc_get_hit", "with_version_manager", "validate",
+              "use_reader", "use_writer", "reclaim_freed", "epoch_freed", "drain_bulk32"):
+        if not s_q.get("stats", {}).get(k):
+            raise vlib.ToolError("vacuity: sequential histories never reached '%s'" % k)
     # ---- witness of known finding C16-KF1 (manager dropped while a token of it is alive).  Executing the
     # release would touch freed memory, so the witness runs in its own process and leaves it from inside the
     # vm.release hook (before the dereference) once it has logged the event; exit code 42 = reproduced.
@@ -104,46 +255,63 @@ def run(ctx):
     if s_u["_rc"] not in (0, 42) or not ufiles:
         ctx.tool_errors.append("C16-KF1 witness process failed (rc=%s)" % s_u["_rc"])
     files += ufiles
+    # the same finding through with_reader_token + the per-thread cache + clear_thread_cache
+    s_u2 = ctx.harness(BIN, "witness", "witness_cache", extra={"variant": "cache"}, allow_fail=True, timeout=60)
+    ufiles2 = sorted(glob.glob(os.path.join(s_u2["_out"], "*.ndjson")))
+    if s_u2["_rc"] not in (0, 42) or not ufiles2:
+        ctx.tool_errors.append("C16-KF1 cache witness process failed (rc=%s)" % s_u2["_rc"])
+    files += ufiles2
     ctx.validate(TRACE, files, what="token protocol run")
     # ---- binding self-tests
     first_sched = [f for f in files if "tok-sched" in f][0]
+    sched_files = [f for f in files if "tok-rsched" in f or "tok-sched" in f]
+    cache_sched = [f for f in files if "sched_fixed_1" in f and "tok-sched" in f and "sched_fixed_1/" not in f]
+    seq_files = [f for f in files if "tok-seq-" in f]
+    rs_files = [f for f in files if "tok-rsched" in f]
     ctx.selftest_corrupt(TRACE, first_sched, corrupt_min, "observed min_version raised above a live token's version")
     ctx.selftest_corrupt(TRACE, first_sched, corrupt_counts, "active_readers at quiescence +1")
-    anyw = [f for f in files if "tok-rsched" in f or "tok-sched" in f]
-    done = False
-    for f in anyw[:40]:
-        try:
-            ctx.selftest_corrupt(TRACE, f, corrupt_second_writer, "refused second writer turned into a granted one")
-            done = True
-            break
-        except vlib.ToolError as e:
-            if "no run suitable" in str(e):
-                continue
-            raise
-    if not done:
-        raise vlib.ToolError("binding self-test: no run with a refused writer found")
+    _selftest_any(ctx, sched_files, corrupt_second_writer, "refused second writer turned into a granted one")
+    _selftest_any(ctx, cache_sched + rs_files, corrupt_second_scoped_writer, "with_writer_token refused while a writer is live turned into a closure that ran")
+    _selftest_any(ctx, seq_files, corrupt_counts_in_closure, "counters inside a with_*_token closure do not count the closure's token")
+    _selftest_any(ctx, cache_sched + rs_files, corrupt_cached_version, "token handed out of the per-thread cache with another version")
+    _selftest_any(ctx, seq_files, corrupt_cache_get, "TokenCache::get_*_token returned a token with another version")
+    _selftest_any(ctx, rs_files + seq_files, corrupt_validate, "validate_token_version(valid version) = false")
+    _selftest_any(ctx, seq_files + rs_files, corrupt_reclaim, "item handed to the free callback with age >= threshold")
+    _selftest_any(ctx, seq_files + rs_files, corrupt_reclaim_foreign_item, "free callback received an item twice")
+    _selftest_any(ctx, seq_files, corrupt_level_facts, "OneWriteMultiRead reports allows_concurrent_writers")
+    _selftest_any(ctx, seq_files, corrupt_token_valid, "live token of a closure reports is_valid() = false")
+    _selftest_any(ctx, seq_files, corrupt_use, "token lent to insert/lookup/contains_with_token is not a live token")
     # ---- evidence
     cov = ctx.cov
     cov["evaluations"] = sched_total + s_r.get("schedules", 0) + s_q.get("runs", 0) + s_s.get("events", 0) + 1
     cov["distinct_nontrivial"] = sched_total + s_r.get("schedules", 0) + s_q.get("runs", 0)
     cov["rule"] = ("B3: every complete interleaving (thread-id schedule) of the listed 2-3 thread programs is generated by TLC from "
-                   "VersionManagerMech (repaired protocol) and executed by real threads on the real VersionManager under the cooperative "
+                   "VersionManagerMech (repaired protocol, incl. the per-thread token cache and with_*_token) and executed by real threads on the "
+                   "real VersionManager / TokenManager under the cooperative "
                    "scheduler (quick: all schedules of the small programs, a seeded sample of the larger sets; thorough: all); distinct = "
                    "distinct (program, schedule) pairs + seeded random (program, schedule) pairs + sequential TokenManager/cache histories; "
                    "each contains at least one acquire; every run is judged by TLC against Tokens.tla after every step")
     cov["random_schedules"] = s_r.get("schedules", 0)
+    cov["random_schedules_per_level"] = s_r.get("per_level", {})
+    cov["random_schedule_ops"] = s_r.get("ops", {})
     cov["sequential_cache_histories"] = s_q.get("runs", 0)
+    cov["sequential_history_stats"] = s_q.get("stats", {})
     cov["stress_events"] = s_s.get("events", 0)
+    cov["stress_scoped_rounds"] = s_s.get("scoped_rounds", 0)
+    cov["model_vs_real_step_structure_differs_in_runs"] = drift
     cov["kf1_witness_rc"] = s_u["_rc"]
-    cov["exhaustive"] = all(x["exhaustive"] for x in cov["schedule_sets"] if x["program_set"] in ("fixed_1", "fixed_2", "fixed_3"))
+    cov["kf1_cache_witness_rc"] = s_u2["_rc"]
+    cov["exhaustive"] = all(x["exhaustive"] for x in cov["schedule_sets"] if x["program_set"] in ("fixed_1", "fixed_2", "fixed_3", "fixed_10"))
     ctx.sample_from_trace(first_sched, 14)
-    sq = [f for f in files if "tok-seq-" in f]
-    if sq:
-        ctx.sample_from_trace(sq[0], 14)
+    if seq_files:
+        ctx.sample_from_trace(seq_files[0], 14)
+    if cache_sched:
+        ctx.sample_from_trace(cache_sched[-1], 14)
     ctx.assumptions += [
-        "sequentially consistent interleavings only (the scheduler serialises threads); pre-emption only at hook sites (after each critical section and each counter update) and between API calls",
+        "sequentially consistent interleavings only (the scheduler serialises threads); pre-emption only at hook sites (after each critical section and each counter update) and between API calls (one inside every with_*_token closure)",
         "stress run: only sound facts are judged (own-token observations, stamped ownership intervals, counters at quiescence)",
-        "the harness assigns token identities; whether an acquire was served from the per-thread cache is inferred from the manager's counters",
+        "the harness assigns token identities; whether an acquire was served from the per-thread cache is inferred from the manager's counters (sequential mode) or from the token's version (scheduled / stress modes, versions being unique per manager)",
+        "a token parked in a cache (per-thread or a user's TokenCache) counts as live; insert/lookup/contains_with_token of CompressedSparseTrie ignore their token argument, the contract only requires that the token lent is live and stays so",
     ]
 
 
@@ -154,7 +322,8 @@ def replay(ctx, path):
     p = os.path.join(ctx.work, "replay_sched.ndjson")
     if "sched" in reset and "prog" in reset:
         item = {"p": reset.get("p", 0), "prog": reset["prog"], "sched": reset["sched"], "fixed": True,
-                "onewriter": reset.get("variant") != "MultiWriteMultiRead"}
+                "onewriter": reset.get("variant") != "MultiWriteMultiRead", "share": bool(reset.get("share", True)),
+                "level": reset.get("variant"), "thr": reset.get("thr", [])}
         open(p, "w").write(json.dumps(item) + "\n")
         s = ctx.harness(BIN, "sched", "rp", extra={"in": p})
     else:
